@@ -6,9 +6,10 @@ import json, subprocess, sys, shutil, re
 from pathlib import Path
 rnd = sys.argv[1]
 wtsuffix = sys.argv[2] if len(sys.argv) > 2 else ""
+subdir = sys.argv[3] if len(sys.argv) > 3 else "out"
 props = {json.loads(l)["id"]: json.loads(l) for l in open("/verif/properties.jsonl")}
 for pid in sorted(props):
-    out = Path("/tmp/wt%s-%s/out" % (wtsuffix, pid))
+    out = Path("/tmp/wt%s-%s/%s" % (wtsuffix, pid, subdir))
     for d in sorted(out.glob("mut*.diff")):
         n = re.search(r"mut(\d+)", d.name).group(1)
         demo, note = out / ("demo%s.py" % n), out / ("note%s.txt" % n)
@@ -17,14 +18,14 @@ for pid in sorted(props):
         conf = subprocess.run(["/verif/tools/confirm_seed.sh", str(d), str(demo)], capture_output=True, text=True).stdout.strip().splitlines()[-1]
         if "demo_clean_rc=0" not in conf or "demo_mutated_rc=0" in conf or "113 passed" not in conf:
             print("NOT CONFIRMED", pid, n, conf); continue
-        det = subprocess.run(["/verif/tools/try_mutation.sh", str(d)], capture_output=True, text=True).stdout
-        caught = re.findall(r"^== (C\d+): VIOLATION", det, re.M)
+        # which checks report it: the rules run in-process on an overlay of the patched files
+        det = subprocess.run(["/verif/tools/eval_patches.py", "-v", str(d)], capture_output=True, text=True).stdout
         reports = {}
-        cur = None
         for line in det.splitlines():
-            m = re.match(r"^== (C\d+): VIOLATION", line)
-            if m: cur = m.group(1); reports[cur] = []
-            elif cur and line.strip(): reports[cur].append(line.strip()[:220])
+            m = re.match(r"^\s+\[(C\d+)\] (\S+) (R\S+) (.*)$", line)
+            if m:
+                reports.setdefault(m.group(1), []).append(("%s %s %s" % (m.group(2), m.group(3), m.group(4)))[:220])
+        caught = sorted(reports)
         sid = "%s-%s-%s" % (rnd, pid, n)
         dst = Path("/verif/seeded") / sid
         dst.mkdir(parents=True, exist_ok=True)
